@@ -100,6 +100,10 @@ func genWords(r *driver.Run) []string {
 	}
 	set := map[string]bool{}
 	k := t.Draw(25)
+	if t.Chance(1, 12) {
+		k = 60 + t.Draw(240) // occasionally a large set: long registers, wide nodes
+		r.Probe("large-word-set")
+	}
 	for i := 0; i < k; i++ {
 		switch t.Draw(4) {
 		case 0:
@@ -370,7 +374,7 @@ func main() {
 		Rule: "a case is one seeded build history: a word set (<= 25 draws over alphabets of 1, 2, 3, 4, 26 or 256 letters incl. 0x00/0xFF, shaped from shared prefix and suffix pools, words that are prefixes of others, optionally the empty word as nil or []byte{}) added through New, a zero Builder, Initialise, or a re-initialised Builder, with rejected additions (duplicate, earlier word, proper prefix) interleaved at a per-run rate and optionally one reused argument buffer. " +
 			"Every Add's error must match the model; after Finish: NumberOfWords, Lookup of every member, every proper prefix, one-byte substitutions and extensions and tape strings, the node count against an independently computed minimal DFA, and the enumerated language of the automaton. Non-trivial = at least 3 accepted words and at least one shared suffix state (fewer nodes than the trie); distinct = distinct fingerprints of the observed lookups and node counts.",
 		Assumptions: []string{
-			"words are at most 8 bytes and sets at most 25 words",
+			"words are at most 8 bytes; sets have at most 25 words (one run in 12: 60-300 draws)",
 			"the automaton is read through the verif-tagged accessor dawg.VerifNodes (add-only file in /repo, build tag verif)",
 			"no schedule or I/O exists in this code: the simulator contributes seeded histories with rejected operations, the lock-step model, minimisation and replay",
 		},
